@@ -57,17 +57,17 @@ Lemma opp_opp h : 0 <= h < 2 ^ 31 -> HEH_opp (HEH_opp h) = h.
 Proof.
   intros Hh. unfold HEH_opp. rewrite (lxor_1 h).
   destruct (Z.even h) eqn:E.
-  - rewrite c_int_id.
-    + rewrite lxor_1. replace (Z.even (h + 1)) with false.
-      * rewrite c_int_id by small. lia.
-      * rewrite Z.even_add, E. reflexivity.
-    + apply Z.even_spec in E. destruct E as [q ->]. small.
+  - assert (E' := E). apply Z.even_spec in E'. destruct E' as [q Hq].
+    assert (R : in_int32 (h + 1)) by small.
+    rewrite (c_int_id _ R). rewrite lxor_1. replace (Z.even (h + 1)) with false.
+    + rewrite c_int_id by small. lia.
+    + rewrite Z.even_add, E. reflexivity.
   - assert (O : Z.odd h = true) by (rewrite <- Z.negb_even, E; reflexivity).
-    rewrite c_int_id.
-    + rewrite lxor_1. replace (Z.even (h - 1)) with true.
-      * rewrite c_int_id by small. lia.
-      * rewrite Z.even_sub, E. reflexivity.
-    + apply Z.odd_spec in O. destruct O as [q ->]. small.
+    assert (O' := O). apply Z.odd_spec in O'. destruct O' as [q Hq].
+    assert (R : in_int32 (h - 1)) by small.
+    rewrite (c_int_id _ R). rewrite lxor_1. replace (Z.even (h - 1)) with true.
+    + rewrite c_int_id by small. lia.
+    + rewrite Z.even_sub, E. reflexivity.
 Qed.
 
 (* the face family and the static TopologyKernel functions are the same functions *)
@@ -119,16 +119,16 @@ Lemma bridge_cor2 t x : rep x -> Z.of_nat (cor2 t x) = HECorr_correctValue (Z.of
 Proof.
   unfold rep, cor2, HECorr_correctValue. intros H.
   destruct (Nat.ltb_spec t x); destruct (Z.gtb_spec (Z.of_nat x) (Z.of_nat t)); try lia.
-  - destruct (Nat.lt_ge_cases x 2); [right; assumption | left]. rewrite c_int_id by small. lia.
-  - left. reflexivity.
+  all: try (left; reflexivity).
+  all: destruct (Nat.lt_ge_cases x 2); [right; assumption | left]; rewrite c_int_id by small; lia.
 Qed.
 
 Lemma bridge_cor1 t x : rep x -> Z.of_nat (cor1 t x) = CCorr_correctValue (Z.of_nat t) (Z.of_nat x).
 Proof.
   unfold rep, cor1, CCorr_correctValue. intros H.
   destruct (Nat.ltb_spec t x); destruct (Z.gtb_spec (Z.of_nat x) (Z.of_nat t)); try lia.
-  - rewrite c_int_id by small. lia.
-  - reflexivity.
+  all: try reflexivity.
+  all: rewrite c_int_id by small; lia.
 Qed.
 
 Lemma corrections_same :
